@@ -61,7 +61,7 @@ Inductive c14case :=
 (* jws.serialize_compact / serialize_json / jwt.encode (use_random) and
    deserialize_compact / deserialize_json / jwt.decode: per member
    (header object, choice index, id of the key the token was really made with) *)
-| CJws (t : tblsel) (use_random : bool) (m : kfmode) (src : ksrc)
+| CJws (t : tblsel) (use_random : bool) (kc : bool) (m : kfmode) (src : ksrc)
        (ms : list (guest * nat * N)) (impl : res (list (N * guest)))
 (* jwe.encrypt_* / decrypt_* : per recipient (header object, choice index,
    sender choice index, id of the real recipient key) *)
@@ -77,11 +77,16 @@ Definition triple_eqb (a b : option str * string * N) : bool :=
   let '(k1, t1, i1) := a in let '(k2, t2, i2) := b in
   ostr_eqb k1 k2 && String.eqb t1 t2 && N.eqb i1 i2.
 
-Definition m_jws (t : tblsel) (ur : bool) (m : kfmode) (src : ksrc) (ms : list (guest * nat * N))
+(* kc = false: rfc7797.serialize_json with b64 = false (no key type check).
+   On the producing side the header object reported is the one parsed from
+   the EMITTED token (jws_emit) *)
+Definition m_jws (t : tblsel) (ur kc : bool) (m : kfmode) (src : ksrc) (ms : list (guest * nat * N))
   : res (list (key * guest)) :=
   map_res (fun x : guest * nat * N =>
              let '(g, idx, pid) := x in
-             do kg <- jws_step (tbl_of t) (ch_idx idx) ur (mk_kf m src) g;
+             do kg0 <- (if kc then jws_step (tbl_of t) (ch_idx idx) ur (mk_kf m src) g
+                        else jws7797_json_step (tbl_of t) (ch_idx idx) (mk_kf m src) g);
+             let kg := if ur then (fst kg0, jws_emit (snd kg0)) else kg0 in
              if ur || (k_id (fst kg) =? pid) then Ok kg else Err wrong_key) ms.
 
 (* encrypt: every recipient is resolved, then the headers are checked;
@@ -98,15 +103,16 @@ Definition m_jwe (t : tblsel) (ur : bool) (m : kfmode) (src : ksrc) (sk : option
 
 (* errors that may follow a successful selection on the producing side
    (key material unusable for the algorithm: curve, length, key type in JWE) *)
-Definition post_allowed (jwe : bool) (e : exn) : bool :=
+Definition post_allowed (jwe nokc : bool) (e : exn) : bool :=
   match e with
   | EValue | EAssert => true
+  | EType | EAttr => nokc       (* rfc7797.serialize_json b64=false signs with a key of the wrong type *)
   | EJose InvalidKeyLengthError | EJose InvalidKeyTypeError | EJose InvalidExchangeKeyError
   | EJose UnsupportedKeyOperationError | EKey | EJose DecodeError | EJose ConflictAlgorithmError => jwe
   | _ => false
   end.
 
-Definition fin_check {A B} (same : A -> B -> bool) (ur jwe : bool) (model : res (list A)) (impl : res (list B)) : bool :=
+Definition fin_check {A B} (same : A -> B -> bool) (ur jwe nokc : bool) (model : res (list A)) (impl : res (list B)) : bool :=
   match model, impl with
   | Ok l, Ok l' =>
       (fix go (l : list A) (l' : list B) : bool :=
@@ -115,7 +121,7 @@ Definition fin_check {A B} (same : A -> B -> bool) (ur jwe : bool) (model : res 
          | a :: r, b :: r' => same a b && go r r'
          | _, _ => false
          end) l l'
-  | Ok _, Err e => ur && post_allowed jwe e
+  | Ok _, Err e => ur && post_allowed jwe nokc e
   | Err ERuntime, Err e => negb (exn_eqb e (EJose InvalidKeyIdError)) && negb (exn_eqb e EOracleMiss)
   | Err e, Err e' => exn_eqb e e'
   | Err _, Ok _ => false
@@ -144,15 +150,15 @@ Definition c14_check (c : c14case) : bool :=
       res_eqb2 (fun (a : key * guest) (b : N * guest) =>
                  N.eqb (k_id (fst a)) (fst b) && guest_same (snd a) (snd b))
               (guess_sender_key (tbl_of t) (ch_idx idx) sk g ur) e
-  | CJws t ur m src ms impl =>
+  | CJws t ur kc m src ms impl =>
       fin_check (fun (a : key * guest) (b : N * guest) =>
                    N.eqb (k_id (fst a)) (fst b) && guest_same (snd a) (snd b))
-                ur false (m_jws t ur m src ms) impl
+                ur false (negb kc) (m_jws t ur kc m src ms) impl
   | CJwe t ur m src sk rs impl =>
       fin_check (fun (a : key * option key * guest) (b : N * option N * guest) =>
                    let '(k, s, g1) := a in let '(i, si, g2) := b in
                    N.eqb (k_id k) i && opt_eqb N.eqb (option_map k_id s) si && guest_same g1 g2)
-                ur true (m_jwe t ur m src sk rs) impl
+                ur true false (m_jwe t ur m src sk rs) impl
   | CExport ks e =>
       list_eqb2 (fun (a : jwk_entry) (b : option string * option str * N) =>
                   let '(t, kid, i) := b in
@@ -189,8 +195,8 @@ Definition c14_show (c : c14case) : c14out :=
   | CSender t sk g ur idx _ =>
       OSel (match guess_sender_key (tbl_of t) (ch_idx idx) sk g ur with
             | Ok (k, g1) => Ok [(k_id k, k_kid k, None, g1)] | Err x => Err x end)
-  | CJws t ur m src ms _ =>
-      OSel (match m_jws t ur m src ms with
+  | CJws t ur kc m src ms _ =>
+      OSel (match m_jws t ur kc m src ms with
             | Ok l => Ok (map (fun a : key * guest => (k_id (fst a), k_kid (fst a), None, snd a)) l)
             | Err x => Err x end)
   | CJwe t ur m src sk rs _ =>
